@@ -4,7 +4,13 @@ from . import lalrmodel
 
 PROPERTY = 'C02'
 TRUSTED = list(lalrmodel.TRUSTED)
-ASSUMPTIONS = []
+ASSUMPTIONS = ["that LALR_Analyzer builds the LALR(1) table of the grammar (compute_lr0_states, reads/includes/lookback, digraph, compute_lalr1_states) is NOT proved: bounded stand-in only",
+               "WF(table) - goto defined, no terminal shift into the end state, no reduce cycle - is assumed by the driver contract and observed only on the enumerated family"]
+BOUNDED = [dict(name='standin.lalr-table', function='lark.parsers.lalr_analysis:LALR_Analyzer.compute_lalr (whole table construction), grammar_analysis.calculate_sets',
+                code=native_file('bounded/c02_lalr.py'),
+                bound={'quick': '200 random grammars (3 non-terminals, 2 terminals, rhs <= 3, nullable/recursive, rule priorities), the reduced ones compared with an independent canonical-LR(1)-merged reference on every terminal string of length <= 4: construction outcome, language, offending-token index, accepts() after every prefix, no foreign exception, no hang',
+                       'thorough': '1200 grammars, strings of length <= 5'},
+                note='bounded stand-in for the table construction: never counted as proved; sampling seeded by VERIF_SEED')]
 
 
 def register(reg):
